@@ -265,7 +265,7 @@ def mismatch_diffs(m):
             return [('webanno.' + k, e.get(k), g.get(k)) for k in ('ok', 'wf', 'targets', 'others', 'extra', 'body')
                     if json.dumps(e.get(k), sort_keys=True) != json.dumps(g.get(k), sort_keys=True)
                     and not (k == 'others' and set(map(lambda x: json.dumps(x), e.get(k) or [])) == set(map(lambda x: json.dumps(x), g.get(k) or [])))
-                    and not (k in ('body',) and sorted(map(lambda x: json.dumps(x, sort_keys=True), e.get(k) or [])) == sorted(map(lambda x: json.dumps(x, sort_keys=True), g.get(k) or [])))]
+                    and not (k in ('body',) and set(map(lambda x: json.dumps(x, sort_keys=True), e.get(k) or [])) == set(map(lambda x: json.dumps(x, sort_keys=True), g.get(k) or [])))]
         return [('readonly', e, {'res': rec.get('res'), 'api': g})]
     if exp.get('roundtrip'):
         ok = exp['ok']
